@@ -11,7 +11,7 @@ from ..index import AnalysisError, walk_no_nested
 from ..norm import (Affine, Canon, Lit, Logic, ProvCanon, affine, distribute_const, lit_lt,
                     minmax_term)
 from ..paths import Frame, cached_paths
-from .common import bound_args, call_name, iteration_segments, path_must, short
+from .common import bound_args, call_name, iteration_segments, path_must, returned_affine, short
 
 FLOORS = {'C06.W1': 2, 'C06.W2': 1, 'C06.W3': 2, 'C06.W4': 3}
 
@@ -38,6 +38,11 @@ def check(repo, res, tier):
     rets = [n for n in walk_no_nested(f.node) if isinstance(n, ast.Return) and n.value is not None]
     if not rets:
         res.bad('C06.W1', f, f.node, 'no return', 'calculate_runtime returns nothing')
+    merged = returned_affine(canon, f, fr)
+    if merged is not None and merged == want and rets:
+        res.ok('C06.W1', f, rets[0], 'calculate_runtime == max(floor(flops/cpu), floor(data/bandwidth))',
+               '%r (merged over the paths of the function)' % merged)
+        rets = []
     for r in rets:
         got = affine(canon, r.value, fr)
         (res.ok if got == want else res.bad)(
